@@ -73,10 +73,55 @@ func FormatDocumentWithOptions(journal *ast.Journal, content string, commodityFo
 		}
 	}
 
+	// A posting line is rebuilt from what the parser understood of it. If the
+	// line contains anything else (text after the amount, a dangling operator)
+	// rebuilding it would silently delete that text: leave such lines alone.
+	lines := strings.Split(content, "\n")
+	kept := edits[:0]
+	for _, edit := range edits {
+		line := int(edit.Range.Start.Line)
+		if line < len(lines) && losesText(lines[line], edit.NewText) {
+			continue
+		}
+		kept = append(kept, edit)
+	}
+	edits = kept
+
 	trimEdits := trimTrailingSpacesEdits(content, mapper, postingLines)
 	edits = append(edits, trimEdits...)
 
 	return edits
+}
+
+// losesText reports whether rewriting a line as formatted would drop characters
+// other than blanks, quotes and number spellings (which formatting may change).
+func losesText(original, formatted string) bool {
+	count := func(s string) map[rune]int {
+		counts := make(map[rune]int)
+		runes := []rune(s)
+		for i, r := range runes {
+			switch {
+			case r == ' ' || r == '\t' || r == '\r' || r == '"' || r == '+' || r == '.' || r == ',':
+				continue
+			case unicode.IsDigit(r):
+				continue
+			case (r == 'e' || r == 'E') && i > 0 && unicode.IsDigit(runes[i-1]) &&
+				i+1 < len(runes) && (unicode.IsDigit(runes[i+1]) || runes[i+1] == '+' || runes[i+1] == '-'):
+				continue // exponent of a number
+			case r == '-' && i > 0 && (runes[i-1] == 'e' || runes[i-1] == 'E'):
+				continue
+			}
+			counts[r]++
+		}
+		return counts
+	}
+	after := count(formatted)
+	for r, n := range count(original) {
+		if after[r] < n {
+			return true
+		}
+	}
+	return false
 }
 
 func trimTrailingSpacesEdits(content string, mapper *lsputil.PositionMapper, postingLines map[int]bool) []protocol.TextEdit {
